@@ -308,7 +308,7 @@ def consistent(f, path, decs):
         subj = peel(subj)
         if subj[0] == 'arg' and f.local_ty(subj[1]).startswith('&') and not f.local_ty(subj[1]).startswith('&mut') and cond[0] == 'discr':
             # the variant of `*arg` behind a shared reference cannot change during the call
-            (_, a), = path_atoms(f, path, [d])
+            (_, a) = path_atoms(f, path, [d])[0]
             place = repr(a[1])    # the very place whose variant is tested (e.g. `*self`, or `(*self as Queue).0`)
             if a[0] == 'is':
                 k = ('isarg', place)
@@ -324,7 +324,7 @@ def consistent(f, path, decs):
             continue
         if subj[0] != 'call' or f.loops_containing(subj[3]) or f.loops_containing(b):
             continue
-        (_, a), = path_atoms(f, path, [d])
+        (_, a) = path_atoms(f, path, [d])[0]
         if a[0] not in ('is', 'bool'):
             continue
         k = (a[0], a[1], subj[3])
@@ -350,7 +350,7 @@ def path_stream(f, path, decs):
         out.extend(path_effects(f, (b,)))
         t = f.term(b)
         if t['k'] == 'switch' and ptr < len(decs) and decs[ptr][0] == b:
-            (_, a), = path_atoms(f, path, [decs[ptr]])
+            (_, a) = path_atoms(f, path, [decs[ptr]])[0]
             out.append(('atom', a, b))
             ptr += 1
     return out
